@@ -1,7 +1,7 @@
 //! Kernels (covariance functions) for Gaussian processes. See the [Kernel
 //! Cookbook](https://www.cs.toronto.edu/~duvenaud/cookbook/) for more details about kernels.
 
-use crate::linalg::{Dot, Matrix, Vector};
+use crate::linalg::{Matrix, Vector};
 
 pub trait Kernel<T, S> {
     fn forward(&self, x: T, y: T) -> S;
@@ -97,8 +97,8 @@ macro_rules! impl_kernel_vec_for_rbf {
         impl Kernel<$t1, $t2> for RBFKernel {
             fn forward(&self, x: $t1, y: $t1) -> $t2 {
                 let (x, y) = (x.reshape(-1, 1), y.reshape(-1, 1));
-                (-(x.powi(2).reshape(-1, 1) + y.powi(2).reshape(1, -1) - 2. * x.dot_t(y))
-                    / (2. * self.length_scale.powi(2)))
+                // squared distances formed directly: x^2 + y^2 - 2xy cancels catastrophically
+                (-(x - y.reshape(1, -1)).powi(2) / (2. * self.length_scale.powi(2)))
                 .exp()
                     * self.var
             }
@@ -116,7 +116,8 @@ macro_rules! impl_kernel_vec_for_rq {
         impl Kernel<$t1, $t2> for RationalQuadraticKernel {
             fn forward(&self, x: $t1, y: $t1) -> $t2 {
                 let (x, y) = (x.reshape(-1, 1), y.reshape(-1, 1));
-                (1. + (x.powi(2).reshape(-1, 1) + y.powi(2).reshape(1, -1) - 2. * x.dot_t(y))
+                // squared distances formed directly: x^2 + y^2 - 2xy cancels catastrophically
+                (1. + (x - y.reshape(1, -1)).powi(2)
                     / (2. * self.alpha * self.length_scale.powi(2)))
                 .powf(-self.alpha)
                     * self.var
